@@ -81,6 +81,9 @@ PReplay(cmds, k, st, devs) ==
                      ELSE Complete(st, cm.tag, "err", -1) IN
           /\ Obs(st1, cm.tag, cm) /\ PReplay(cmds, k + 1, st1, devs)
      [] cm.k = "poll" -> Obs(st, cm.tag, cm) /\ PReplay(cmds, k + 1, st, devs)
+     \* the connection read what was on the wire into its incoming queue without dispatching: nothing a caller can
+     \* tell apart from "still on the way" (in particular a call cancelled now is never completed or notified)
+     [] cm.k = "fetch" -> PReplay(cmds, k + 1, st, devs)
      [] cm.k = "steal" ->
           LET c == st.calls[cm.tag]
               has == c.done /\ ~c.stolen IN
